@@ -88,9 +88,12 @@ PROPS = {
     },
     "C17": {
         "lean": ["Stackage.Props.C17"],
-        "streams": [{"name": "inert", "quick": 4000, "thorough": 80000}, {"name": "closures", "quick": 1500, "thorough": 30000}],
+        "streams": [{"name": "inert", "quick": 4000, "thorough": 80000}, {"name": "closures", "quick": 1500, "thorough": 30000},
+                    {"name": "resets", "quick": 2000, "thorough": 40000}],
         "rule": "every exported method of Stack and Condition (reflection) x generated arguments x receiver states {zero value, freed}; the result must be the zero result of the "
-                "Lean table and the receiver must stay uninitialised; sequences of 1-4 calls",
+                "Lean table and the receiver must stay uninitialised; sequences of 1-4 calls. resets: any configuration (kind, capacity, options, texts, policies) x a history "
+                "that rebuilds the slice (Remove, Insert at the front, Pop, Reverse, Replace, Swap) x Reset: the configuration dump before and after must agree, no element "
+                "(nil ones included) may remain, and the instance must stay usable under the same capacity and policies",
         "modelled": COMMON_MODELLED,
         "assumptions": ["the documented sentinels (ID \"unspecified\", Kind \"<invalid_stack>\", Addr \"0x0\", IsEmpty/IsPadded/IsZero true) are pinned as zero results",
                         "package-level functions and Auxiliary methods are exercised by the C08 / C18 streams"],
@@ -394,6 +397,13 @@ def projection(pid, stream):
         return _c13_cond
     if pid == "C14" and stream == "closures":
         return lambda s: s
+    if pid == "C17" and stream == "resets":
+        # Reset clause: the configuration dumps (before the history, after each Reset: kind, capacity, options, texts,
+        # policies present) with the list observed right after the Reset, and the last step (the instance is usable)
+        def _resets(s):
+            st = s.split(" ; ")
+            return " ; ".join(x for i, x in enumerate(st) if x.startswith("D{") or i == len(st) - 1)
+        return _resets
     if pid == "C17" and stream == "closures":
         # only the final Free step matters to C17: "Free makes the handle zero unless the instance is read-only"
         return lambda s: " ; ".join(st for st in s.split(" ; ") if st.startswith("free "))
